@@ -2642,6 +2642,13 @@ func (s *Store) fsmSnapshot() (fSnap raft.FSMSnapshot, retErr error) {
 	var fsmSnapshot raft.FSMSnapshot
 	finalizer := s.createSnapshotFingerprint
 	if dueNext.IsFull() {
+		// A full snapshot supersedes any WAL files staged for an earlier incremental snapshot.
+		// They were cut from the database as it was before this snapshot (possibly before a load
+		// or restore replaced it), so they must never be packaged with a later incremental one.
+		if err := os.RemoveAll(s.walStagingDir); err != nil {
+			return nil, fmt.Errorf("failed to remove WAL staging directory before full snapshot: %w", err)
+		}
+
 		// We need to start the snapshoting process over again, starting with a full copy of the SQLite
 		// database. This happens when a node is snapshotting for the very first time, or in certain
 		// crash scenarios where we've truncated the WAL into the database, but haven't successfully
@@ -2808,6 +2815,10 @@ func (s *Store) fsmRestore(rc io.ReadCloser) (retErr error) {
 		return fmt.Errorf("error swapping database file: %v", err)
 	}
 	s.logger.Printf("successfully opened database at %s due to restore", s.db.Path())
+	// Any staged WAL files were cut from the database that was just replaced.
+	if err := os.RemoveAll(s.walStagingDir); err != nil {
+		return fmt.Errorf("failed to remove WAL staging directory post restore: %w", err)
+	}
 	// Installed SQLite database is safe for fast restarts again.
 	if err := s.createSnapshotFingerprint(); err != nil {
 		return fmt.Errorf("failed to create snapshot fingerprint post restore: %s", err)
